@@ -21,7 +21,7 @@ FUNCTIONS = [
     "batchie.cli.prepare_retrospective_simulation.main / calculate_scores.main / select_next_plate.main / train_model.main (through get_parser / get_args with sys.argv set; class lookup by name answered from the loaded modules)",
 ]
 BOUNDS = {
-    "quick": "the small shapes of C05/C06/C08/C11: every retrospective operation on its family screens (two generated structures included), scorers on 3 plates, one Gibbs sweep of each shipped model on 3 observations (embedding size 1, a sample and a treatment without data), the four CLI entry points; five retrospective operations repeated in one process after an unrelated call (call-history independence)",
+    "quick": "the small shapes of C05/C06/C08/C11: every retrospective operation on its family screens (two generated structures included), scorers on 3 plates, one Gibbs sweep of each shipped model on 3 observations (embedding size 1, a sample and a treatment without data), the four CLI entry points; five retrospective operations repeated in one process after an unrelated call (call-history independence); np.empty yields arbitrary contents (fresh unknowns / a changing garbage pattern on replays)",
     "thorough": "same with the larger C11 families and the 64 generated screen structures of C11/C13",
 }
 ASSUMPTIONS = [
